@@ -181,7 +181,7 @@ func runC07(c c07Case, rec *ev.Recorder) *Failure {
 		case "send":
 			f.RunMsg(ctx(), &crosschaintypes.MsgSendToExternal{ChainName: ch, Sender: u.Acc().String(), Dest: sim.ExtAddrN(ch, "dest", 1), Amount: sdk.NewCoin(tok.Base, sdkmath.NewInt(op.Amt)), BridgeFee: sdk.NewCoin(tok.Base, sdkmath.NewInt(int64(1+op.What)))})
 		case "batch":
-			f.RunMsg(ctx(), &crosschaintypes.MsgSendToExternal{ChainName: ch, Sender: u.Acc().String(), Dest: sim.ExtAddrN(ch, "dest", 2), Amount: sdk.NewCoin(tok.Base, sdkmath.NewInt(op.Amt)), BridgeFee: sdk.NewCoin(tok.Base, sdkmath.NewInt(int64(100 + si)))})
+			f.RunMsg(ctx(), &crosschaintypes.MsgSendToExternal{ChainName: ch, Sender: u.Acc().String(), Dest: sim.ExtAddrN(ch, "dest", 2), Amount: sdk.NewCoin(tok.Base, sdkmath.NewInt(op.Amt)), BridgeFee: sdk.NewCoin(tok.Base, sdkmath.NewInt(int64(100+si)))})
 			if r := f.RunMsg(ctx(), &crosschaintypes.MsgRequestBatch{ChainName: ch, Sender: keys[0].Bridger.Acc().String(), Denom: tok.Bridge[ch], MinimumFee: sdkmath.NewInt(1), FeeReceive: sim.ExtAddrN(ch, "feercv", 1), BaseFee: sdkmath.ZeroInt()}); r.OK() {
 				labels["batch"] = true
 			}
